@@ -119,6 +119,17 @@ def gen (n : Nat) : G (List String) := do
       for h in [0:3] do
         out := out ++ [allocLine pipe e2 clock (tplDatagram (1100 * h) 1100 9) 2]
       out := out ++ [allocLine pipe e2 clock (tplDatagram (← range 0 2800) 400 9) 2]
+    -- (j) an IPFIX template that names the frame-section element (315) many times with length 0 next to one one-byte field, and a
+    --     datagram full of one-byte records: every record runs the packet dissector once per 315 field, on no bytes at all
+    if i % 3 = 0 then
+      let n315 ← pick [16, 40, 63]
+      let ftid := 900 + i % 50
+      let ftpl : List SField := (List.replicate n315 (⟨315, 0, none⟩ : SField)) ++ [⟨1300, 1, none⟩]
+      let ftm : Msg := ⟨10, 0, 1, 2, 3, 79, [.template [(ftid, ftpl)] 0]⟩
+      out := out ++ [allocLine pipe e clock (encode { ftm with count := 1 }) (n315 + 1)]
+      let nrec ← pick [500, 4000, 8900]
+      let fbody : Bytes := encBE 2 ftid ++ encBE 2 (4 + nrec) ++ (← bytesOf nrec)
+      out := out ++ [allocLine pipe e clock (encBE 2 10 ++ encBE 2 (16 + fbody.length) ++ encBE 4 2 ++ encBE 4 3 ++ encBE 4 79 ++ fbody) (n315 + 1)]
     -- (d) degenerate templates
     out := out ++ [allocLine "nf" e clock (← C01.degenerate 10) 1, allocLine "nf" e clock (← C01.degenerate 9) 1]
   pure out
